@@ -66,6 +66,7 @@ type FuncContract struct {
 	Modifies  []ModTarget
 	HasMod    bool
 	FrameTrusted string // non-empty: reason why the declared frame is not checked
+	AssumedEnsures []*Clause // usable by callers, not proved on the body (label = reason)
 	Pure      bool // modifies nothing
 	Loops     map[int]*LoopSpec
 	Sites     []*SiteSpec
@@ -136,6 +137,7 @@ var clauseKeywords = map[string]bool{
 	"panics_if": true, "safety": true, "inline": true, "noinline": true, "assume": true,
 	"lockeffect": true, "rlockeffect": true, "ghostset": true, "pure": true, "havoc": true, "fresh": true,
 	"nobalance": true, "trustcall": true, "trusted": true, "guards": true, "invariant": true, "trustframe": true,
+	"ensures_assumed": true,
 }
 var declKeywords = map[string]bool{"func": true, "stub": true, "pred": true, "ghost": true, "monitor": true}
 
@@ -412,6 +414,16 @@ func (cs *ContractSet) parseClause(fc *FuncContract, c rawClause) error {
 			return err
 		}
 		fc.Ensures = append(fc.Ensures, cl)
+	case "ensures_assumed":
+		// a postcondition callers may use but that is not proved on the body
+		// (listed as an assumption): ensures_assumed expr -- reason
+		text, reason := splitReason(c.text)
+		cl, err := parseLabeled(text, c.pos)
+		if err != nil {
+			return err
+		}
+		cl.Label = reason
+		fc.AssumedEnsures = append(fc.AssumedEnsures, cl)
 	case "panics_if":
 		cl, err := parseLabeled(c.text, c.pos)
 		if err != nil {
@@ -449,7 +461,8 @@ func (cs *ContractSet) parseClause(fc *FuncContract, c rawClause) error {
 			fc.Modifies = append(fc.Modifies, ModTarget{Expr: e, Text: part})
 		}
 	case "havoc":
-		fc.Havoc = append(fc.Havoc, strings.Fields(c.text)...)
+		keys, _ := splitReason(c.text)
+		fc.Havoc = append(fc.Havoc, strings.Fields(keys)...)
 	case "fresh":
 		for _, f := range strings.Fields(c.text) {
 			n, err := strconv.Atoi(strings.TrimPrefix(f, "r"))
